@@ -24,7 +24,7 @@ INCS = [1, 1000, 10 ** 6, 3 * 10 ** 9, 10 ** 11]
 
 
 def strategy(tier):
-    cfg = gen.Cfg(max_tasks=10 if tier == "quick" else 25, sync=True, ctx=("rec", "ov"), dag=True, ditem=True, prio="tiefree",
+    cfg = gen.Cfg(max_tasks=10 if tier == "quick" else 25, sync=True, ctx=("rec", "ov"), dag=True, ditem=True, prio="tiefree", itemvalue=True,
                   flush_faults=("raise",), convs=("call", "value", "wrapper"),
                   shapes=("reentry", "reentry", "reentry", "tree", "comb", "chain", "diamond", "stagger", "free"))
     subset = st.lists(st.sampled_from(BOOL_OPTIONS), min_size=2, max_size=6, unique=True)
@@ -71,6 +71,7 @@ def check(case, ctx):
             break
     ctx.label("flushes>=1", len(base.flushes) >= 1)
     ctx.label("sync-reentry", not base.yield_only)
+    ctx.label("out-of-band-item.value()", base.ndirect > 0)
     ctx.label("clock>=2^31us-total", case["inc"] >= 3 * 10 ** 9)
     ctx.label("outcome=" + base.outcome[0])
     ctx.label("shape=" + prog.get("shape", "?"))
